@@ -12,6 +12,9 @@ type loop struct {
 	continuePos []int
 	breakPos    []int
 	isRangeLoop bool
+	// switchDepth is the number of switch statements, within this loop, that
+	// enclose the code being compiled. Each keeps its subject on the stack.
+	switchDepth int
 }
 
 func (l *loop) end() {
